@@ -189,6 +189,19 @@ func run(c Case) (res ev.Result) {
 			wantTyp, wantPayload, wantAccessor = tk.typ, c.Payload, c.Kind
 		}
 	}
+	// an unrelated, damaged event is decoded first (a text and a data event that announce more
+	// bytes than they carry): what the accessors do with it is not this property's business, but
+	// it must leave nothing behind that shows up in the next, well-formed event
+	ev.Try(func() {
+		var junk string
+		var jb []byte
+		var n uint8
+		smf.Message{0xFF, 0x01, 0x09, 'o', 'o', 'p', 's'}.GetMetaText(&junk)
+		smf.Message{0xFF, 0x05, 0x81, 0x00, 'l', 'a'}.GetMetaLyric(&junk)
+		smf.Message{0xFF, 0x7F, 0x09, 1, 2, 3}.GetMetaSeqData(&jb)
+		smf.Message{0xFF, 0x58, 0x04, 3}.GetMetaMeter(&n, &n)
+		_ = smf.Message{0xFF, 0x03, 0x7F, 'x'}.String()
+	})
 	if p := ev.Try(build); p != "" {
 		res.Violation = "constructor Meta" + c.Kind + ": " + p
 		return
@@ -417,7 +430,7 @@ func genCase(t *rapid.T) Case {
 func d8(t *rapid.T) int { return int(rapid.Byte().Draw(t, "byte")) }
 
 var metas = ev.NewCheck("C15", "constructors",
-	"rapid: the 9 text constructors with arbitrary bytes of length 0..20000 (biased to 127/128/129/16383/16384), MetaSequencerData 1..20000 bytes, SMPTE offset fields, time signatures numerator 0..255 x denominator 1..128 (powers of two) x clocks x 32nds (0 = documented shorthand for 8), MetaMeter, tempi as every 24-bit microseconds-per-quarter value (sampled) and random BPM 3.58..6e7; oracle: message is FF/type/canonical VLQ/payload with exact length by the harness parser, exactly the matching accessor accepts, accessor returns the arguments (tempo at most 1 us per quarter away, the resolution of the field); non-trivial = payload >= 128 bytes or a non-text constructor; distinct by case hash",
+	"rapid: the 9 text constructors with arbitrary bytes of length 0..20000 (biased to 127/128/129/16383/16384), MetaSequencerData 1..20000 bytes, SMPTE offset fields, time signatures numerator 0..255 x denominator 1..128 (powers of two) x clocks x 32nds (0 = documented shorthand for 8), MetaMeter, tempi as every 24-bit microseconds-per-quarter value (sampled) and random BPM 3.58..6e7; a damaged text/data event is decoded before every case (nothing of it may leak into the next result); payloads start or end with magic sequences (byte order marks, line ends, NUL, FF 2F 00, F7) in one case of six; oracle: message is FF/type/canonical VLQ/payload with exact length by the harness parser, exactly the matching accessor accepts, accessor returns the arguments (tempo at most 1 us per quarter away, the resolution of the field); non-trivial = payload >= 128 bytes or a non-text constructor; distinct by case hash",
 	genCase, run)
 
 func TestPropConstructors(t *testing.T) { metas.Rapid(t, 4000, 100000) }
